@@ -11,6 +11,7 @@ pub mod c03;
 pub mod c04;
 pub mod c05;
 pub mod c06;
+pub mod c07;
 
 use common::*;
 use serde_json::Value;
@@ -36,6 +37,7 @@ pub fn modules() -> Vec<Module> {
         module!("C04", c04),
         module!("C05", c05),
         module!("C06", c06),
+        module!("C07", c07),
     ]
 }
 
